@@ -65,7 +65,39 @@ def _chart_timing():
     return tuple(names), STATED_CHART_TIMING
 
 
+STATED_ALIASES = {"SMSimfile": {("stops", "STOPS", "FREEZES"), ("bgchanges", "BGCHANGES", "ANIMATIONS")},
+                  "SSCSimfile": {("bgchanges", "BGCHANGES", "ANIMATIONS")},
+                  "SSCChart": {("notes", "NOTES", "NOTES2")},
+                  "SMChart": set()}
+
+
+def _aliases():
+    import props.C18 as c18
+    got = {}
+    for cls in c18._classes():
+        got[cls.__name__] = {d for d in c18.declarations(cls) if d[2]}
+    return got, STATED_ALIASES
+
+
+def _group_default():
+    import inspect
+    import simfile.notes as n
+    from simfile.notes.group import group_notes
+    d = inspect.signature(group_notes).parameters["include_note_types"].default
+    return frozenset(d), frozenset(n.NoteType)
+
+
+def _count_default():
+    import simfile.notes as n
+    import simfile.notes.count as c
+    T = n.NoteType
+    return frozenset(c.DEFAULT_NOTE_TYPES), frozenset((T.TAP, T.HOLD_HEAD, T.ROLL_HEAD, T.LIFT))
+
+
 TABLE = {
+    "group-notes-default-types": (_group_default, "group_notes considers every note type unless told otherwise (its documented default)"),
+    "count-default-types": (_count_default, "steps, jumps and hands count taps, hold heads, roll heads and lifts"),
+    "alias-declarations": (_aliases, "legacy aliases: FREEZES for SM stops, ANIMATIONS for background changes, NOTES2 for SSC note data - and no other"),
     "default-encodings": (_encodings, "the default list of tried encodings is UTF-8, CP1252, CP932, CP949 in this order"),
     "sm-chart-fields": (_six, "an SM chart has the six fields STEPSTYPE, DESCRIPTION, DIFFICULTY, METER, RADARVALUES, NOTES in this order"),
     "simfile-extensions": (_simfile_ext, "simfiles are the .sm and .ssc files"),
